@@ -34,8 +34,7 @@ type c22Case struct {
 var c22Bin, c22BinDir string
 var c22Seq atomic.Int64
 
-// c22PTY types the lines of the history (each followed by two empty lines that dismiss
-// "Press ENTER" prompts) and then enough quits into the real mltwist binary under a
+// c22PTY types the lines of the history and then a run of quits into the real mltwist binary under a
 // pseudo-terminal of 30 rows: whatever the lines are, the process must neither crash
 // nor hang and must end with exit status 0 once the quits are consumed.
 func c22PTY(c c22Case) *eng.Fail {
@@ -64,15 +63,23 @@ func c22PTY(c c22Case) *eng.Fail {
 		panic(err)
 	}
 	defer os.Remove(path)
+	// Each line is followed by its prompt answers and two empty lines (dismissing a "Press
+	// ENTER"); the tail is a run of plain quits: whether a quit is read as a command or is
+	// swallowed as the ENTER some message waits for, the next one is a command again, so the
+	// application is left whatever state the lines put the input parity in. Prompts still
+	// pending take the 1s.
 	var in strings.Builder
 	for _, l := range c.History {
 		in.WriteString(l.Line + "\n")
 		for _, a := range l.Answers {
 			in.WriteString(a + "\n")
 		}
+		if len(l.Answers) > 0 {
+			in.WriteString(strings.Repeat("1\n", 6))
+		}
 		in.WriteString("\n\n")
 	}
-	in.WriteString(strings.Repeat("q\n\n", 6))
+	in.WriteString(strings.Repeat("q\n", 16))
 	res, err := procx.RunPTYOpt(c22Bin, []string{path}, 30, 100, in.String(), 120*time.Second, true)
 	if err != nil {
 		return nil // no pseudo-terminal available here
@@ -127,7 +134,7 @@ func c22Replay(c c22Case) (*uix.Session, *eng.Fail) {
 		return nil, c22PTY(c)
 	}
 	p := progByName(c.Prog)
-	s, err := uix.New(p.Segs, p.Entry)
+	s, err := newSession(p)
 	if err != nil {
 		return nil, &eng.Fail{Sig: "session setup", What: err.Error(), Case: c}
 	}
@@ -172,7 +179,7 @@ func init() {
 	checks["C22"] = eng.Check{
 		Hist:        true,
 		Procs:       12,
-		Rule:        "explicit-state BFS over input-line histories of depth <=3 (thorough 4) from the initial state and 5 non-initial root states (inside the emulator, after emulation steps, inside memory views of an absent and of a written memory, after a move) on 4 programs (a 1-instruction code, a 3-block code with blocks of different sizes, a loop with a gap, a code with blocks of 2, 1 and 2 instructions), through the real UI.processCommand with stdin injected per command; line alphabets per mode: disassembler 43 lines plus, per program, moves between every pair of block header lines, a move of EVERY line onto itself and onto its successor, bounds of every line, and move/bounds/goto on each block's first instruction, emulator 35 lines with prompt answers from {5,0x10,-1,'',_,zz}, memory view 27 lines (blank/space-only lines, missing/extra/non-numeric/negative/huge arguments, out-of-range line numbers, bad regexes, unknown commands, mode switches e, m <key>, q). After every command the composite screen is rendered at heights 24 and 50 as Run does. States are deduplicated by (mode stack, cursors, marks, code order, emulator registers and memory). Plus two long walks per program on a single session (600 lines cycling through the alphabet of the current mode). Oracle: no panic, the command loop does not fail, q pops exactly one mode. PROC conformance: every single disassembler line (thorough: every pair of disassembler lines and every emulator line after 'entry; e') typed into the real binary under a pseudo-terminal on two programs, followed by quits: no crash, no hang, exit status 0. Non-trivial = history reaching a new state.",
+		Rule:        "explicit-state BFS over input-line histories of depth <=3 (thorough 4) from the initial state and 5 non-initial root states (inside the emulator, after emulation steps, inside memory views of an absent and of a written memory, after a move) on 4 programs (a 1-instruction code, a 3-block code with blocks of different sizes, a loop with a gap, a code with blocks of 2, 1 and 2 instructions), through the real UI.processCommand with stdin injected per command; line alphabets per mode: disassembler 43 lines plus, per program, moves between every pair of block header lines, a move of EVERY line onto itself and onto its successor, bounds of every line, and move/bounds/goto on each block's first instruction, emulator 35 lines with prompt answers from {5,0x10,-1,'',_,zz}, memory view 27 lines (blank/space-only lines, missing/extra/non-numeric/negative/huge arguments, out-of-range line numbers, bad regexes, unknown commands, mode switches e, m <key>, q). After every command the composite screen is rendered at heights 24 and 50 as Run does. States are deduplicated by (mode stack, cursors, marks, code order, emulator registers and memory). A line that leaves the observable state unchanged is entered a second time (hidden state left by a failed command). Plus three long walks per program on a single session (600 lines cycling through the alphabet of the current mode; in the third every line is entered twice in a row). Oracle: no panic, the command loop does not fail, q pops exactly one mode. PROC conformance: every single disassembler line (thorough: every pair of disassembler lines and every emulator line after 'entry; e') typed into the real binary under a pseudo-terminal on two programs, followed by quits: no crash, no hang, exit status 0. Non-trivial = history reaching a new state.",
 		Assumptions: []string{"every injected input ends with a tail of valid answers so prompts never hit EOF (horizon)", "terminal size is supplied by the harness (heights 24, 50); the system call path is only exercised by C26's pty runs"},
 		Run: func(r *eng.Run) {
 			uix.Discard = true // the oracle does not read the screen text
@@ -184,7 +191,7 @@ func init() {
 			for _, p := range uiProgs {
 				seen := map[string]bool{}
 				type node struct{ hist []uiLine }
-				s0, err := uix.New(p.Segs, p.Entry)
+				s0, err := newSession(p)
 				if err != nil {
 					r.Report(&eng.Fail{Sig: "session setup", What: err.Error(), Case: c22Case{Prog: p.Name}})
 					continue
@@ -219,6 +226,7 @@ func init() {
 						if f != nil || s == nil || s.Quit {
 							continue
 						}
+						parentKey := s.StateKey()
 						alpha := c22Alpha[s.ModeKind()]
 						if v := s.ListView(); v != nil && s.ModeKind() == "disassemble" && (lvl+1 < depth || depth <= 2) {
 							// (the per-program additions are used on all but the last level)
@@ -269,6 +277,19 @@ func init() {
 								continue
 							}
 							k := s2.StateKey()
+							if k == parentKey && mine {
+								// the line left the observable state unchanged (typically an error): whatever it
+								// left behind in hidden state shows when the very same line is entered again
+								h2 := append(append([]uiLine{}, h...), l)
+								_, f2 := c22Replay(c22Case{Prog: p.Name, History: h2, Heights: []int{24}})
+								r.Eval(1)
+								r.Trans(1)
+								r.Trace(1)
+								if f2 != nil {
+									r.Report(f2)
+									r.Outcome(f2.Sig)
+								}
+							}
 							if !seen[k] {
 								seen[k] = true
 								if mine {
@@ -288,9 +309,13 @@ func init() {
 				if !r.Mine(pi) {
 					continue
 				}
-				for _, stride := range []int{1, 7} {
+				for _, stride := range []int{1, 7, -3} {
+					twice := stride < 0 // every line is entered twice in a row
+					if twice {
+						stride = -stride
+					}
 					var hist []uiLine
-					probe, err := uix.New(p.Segs, p.Entry)
+					probe, err := newSession(p)
 					if err != nil {
 						continue
 					}
@@ -306,6 +331,12 @@ func init() {
 						res := probe.Command(l.Line, l.Answers...)
 						if res.Panic != nil || res.Err != nil {
 							break
+						}
+						if twice && !probe.Quit && strings.TrimSpace(l.Line) != "q" {
+							hist = append(hist, l)
+							if res := probe.Command(l.Line, l.Answers...); res.Panic != nil || res.Err != nil {
+								break
+							}
 						}
 					}
 					_, f := c22Replay(c22Case{Prog: p.Name, History: hist, Heights: []int{24}})
